@@ -7,6 +7,8 @@ a. race monitor + linearizability by trace validation: the concurrent overlay dr
    serialised trace is validated by TLC (TunnelTimeTrace): the totals after quiescence must equal the ideal accounting of
    spec/TunnelTime.tla, whatever the real interleaving was.  Any race report whose stack is in the repository's packages
    is a violation (module "metrics", kind "data-race", where = top repository frame).
+c. per-connection counters: mc_common.concurrent_part (MetricsCount.tla) - TCP and UDP reports from concurrent callers
+   against concurrent scrapes, with and without -race, and the UDP hammer; totals at quiescence = sums reported.
 b. sequential consistency of Collect against start/stop: the shortest schedule of the as-is model of TunnelTime.tla in
    which a scrape's clock read and its locked part are separated by a tick and a start (TLC, exhaustive) is replayed on
    the real collectors, also under -race; if the real scrape panics the result is not explainable by any sequential order
@@ -138,3 +140,15 @@ def run_part(ctx):
     for i, sh in enumerate(shapes):
         concurrent(ctx, sh, i)
     sequential_consistency(ctx)
+    # c. the per-connection counters (spec/MetricsCount.tla): concurrent callers + concurrent scrapes, totals at quiescence
+    from checks import mc_common
+    out = mc_common.concurrent_part(ctx, race=True)
+    seen = set()
+    for r in parse_races(out or ""):
+        ctx.cov["race_reports"] = ctx.cov.get("race_reports", 0) + 1
+        if r["where"] in seen:
+            continue
+        seen.add(r["where"])
+        ctx.violation({"module": "metrics", "kind": "data-race", "where": r["where"]},
+                      "data race reported by the Go race detector in the metrics collectors (per-connection reports against "
+                      "scrapes), top repository frame %s" % r["where"], {"component": "metrics", "report": r["block"]})
